@@ -184,6 +184,7 @@ type c21Run struct {
 	nd   *c21Node
 	tree *c21Tree
 	bad  bool // a panic happened: never recycle
+	prop bool // an equivocator's second prevote-stage message is sent as a primary proposal
 }
 
 func c21Open(tree *c21Tree, head, n int) *c21Run {
@@ -255,7 +256,13 @@ func (x *c21Run) deliver(r *verifmc.Report, a c21Assign, stage Subround) {
 		}
 		x.send(r, c21VoteMsg(v, stage, x.tree.vote(beh.B1), c21Round, c21SetID))
 		if beh.Kind == 2 {
-			x.send(r, c21VoteMsg(v, stage, x.tree.vote(beh.B2), c21Round, c21SetID))
+			st2 := stage
+			if x.prop && stage == prevote {
+				// gossamer keeps primary proposals with the prevotes: a proposal for another block than the
+				// sender's prevote is an equivocation like two prevotes
+				st2 = primaryProposal
+			}
+			x.send(r, c21VoteMsg(v, st2, x.tree.vote(beh.B2), c21Round, c21SetID))
 		}
 	}
 }
@@ -282,6 +289,7 @@ type c21Elem struct {
 	Head   int      `json:"head"`
 	N      int      `json:"n"`
 	C      uint     `json:"pending_change_at"`
+	Prop   bool      `json:"second_prevote_of_an_equivocator_sent_as_primary_proposal,omitempty"`
 	Pre    c21Assign `json:"prevotes"`   // index = voter
 	Pc     c21Assign `json:"precommits"` // index = voter
 	// part C
@@ -292,6 +300,9 @@ type c21Elem struct {
 
 func (e *c21Elem) render() string {
 	s := fmt.Sprintf("part %s tree(parent)=%v head=%d n=%d", e.Part, e.Parent, e.Head, e.N)
+	if e.Prop {
+		s += " (second message of every prevote equivocator sent as primary proposal)"
+	}
 	if e.Part == "C" {
 		var b []string
 		for _, m := range e.Base {
@@ -418,6 +429,7 @@ func c21Replay(e *c21Elem, extra map[string]any) any {
 func c21CheckA(r *verifmc.Report, sink *c21Sink, order int64, tree *c21Tree, e *c21Elem, cs []uint, R int) {
 	x := c21Open(tree, e.Head, e.N)
 	defer x.close()
+	x.prop = e.Prop
 	x.deliver(r, e.Pre, prevote)
 	if x.bad {
 		sink.add("panic:validateVoteMessage", e.render(), c21Size(e), order, c21Replay(e, nil))
@@ -531,6 +543,7 @@ func c21ShapeA(x *c21Run, tree *c21Tree, e *c21Elem, w []int, g, want int, got *
 func c21CheckB(r *verifmc.Report, sink *c21Sink, order int64, tree *c21Tree, e *c21Elem, pcs []c21Assign, R int) {
 	x := c21Open(tree, e.Head, e.N)
 	defer x.close()
+	x.prop = e.Prop
 	x.deliver(nil, e.Pre, prevote)
 	x.nd.gs.nextChange = e.C
 	wpv := c21Weights(tree, e.Pre)
@@ -902,6 +915,17 @@ func c21Groups() (groups []c21Group, rule string) {
 				c21Assignments(n, c21AllBlocks(b.nodes), b.ordered, func(a c21Assign) {
 					groups = append(groups, c21Group{part: "A", tree: tree, cs: cs,
 						elem: c21Elem{Part: "A", Parent: tree.parent, N: n, Pre: a}})
+					// the same assignment with every equivocator's second message sent as a primary proposal
+					// (trees of <= 3 nodes, n <= 4: the tallies must be those of an ordinary equivocation)
+					if b.nodes <= 3 && n <= 4 {
+						for _, beh := range a {
+							if beh.Kind == 2 {
+								groups = append(groups, c21Group{part: "A", tree: tree, cs: cs,
+									elem: c21Elem{Part: "A", Parent: tree.parent, N: n, Pre: a, Prop: true}})
+								break
+							}
+						}
+					}
 				})
 			}
 		})
